@@ -254,3 +254,33 @@ def trace_clause(model, payload):
     if mine:
         return {"reproduced": True, "detail": mine[0]["what"], "inputs": {"scenario": mine[0]["what"], "clause_group": group, "all_failures_in_group": [f["what"] for f in mine][:6]}}
     return {"reproduced": False, "detail": "clause group %r holds on all native scenarios (%d other failures: %s)" % (group, len(fails), [f["what"] for f in fails][:3])}
+
+
+def same_path_twice(model, payload):
+    """ONE-KEY precondition: one evaluation keeps the same path with two different bindings"""
+    import dds
+
+    src = "import dds\ndef f(x):\n    return 'f(%d)' % x\ndef root():\n    a = dds.keep('/dup/p', f, 1)\n    b = dds.keep('/dup/p', f, 2)\n    return (a, b)\n"
+    d = tempfile.mkdtemp(prefix="dds_replay_dup_")
+    try:
+        with open(os.path.join(d, "dup_mod.py"), "w") as fh:
+            fh.write(src)
+        sys.path.insert(0, d)
+        import importlib
+
+        m = importlib.import_module("dup_mod")
+        dds.accept_module(m)
+        dds.set_store("memory")
+        try:
+            r = dds.eval(m.root)
+        except BaseException as e:
+            return {"reproduced": False, "detail": "rejected: %s: %s" % (type(e).__name__, str(e)[:100])}
+        if r != ("f(1)", "f(2)"):
+            return {"reproduced": True, "detail": "a = keep('/dup/p', f, 1); b = keep('/dup/p', f, 2) in one evaluation returns %r; plain execution gives ('f(1)', 'f(2)')" % (r,), "inputs": {"pipeline": src}}
+        return {"reproduced": False, "detail": "both keeps return their own value"}
+    finally:
+        if d in sys.path:
+            sys.path.remove(d)
+        import shutil
+
+        shutil.rmtree(d, ignore_errors=True)
